@@ -458,11 +458,17 @@ func genC40(t *rapid.T) c40Prog {
 
 const c40SigTruncated = "finishing-side-bytes-truncated-by-opposite-direction"
 
+// c40WitnessStall is how long the scripted user Y of the witness does not read.
+// The unchanged Pipe closes y1 in the statement after the failed write, long
+// before this; an implementation that lets the opposite direction drain for at
+// least this long delivers the bytes and the witness reports "not reproduced".
+const c40WitnessStall = 3 * time.Second
+
 // c40Witness reproduces the truncation deterministically with scripted streams:
 // user X has sent 4 bytes and closed (x2: Read gives the 4 bytes, then EOF;
 // Write fails like a closed connection); user Y is busy sending and is not
-// reading at this moment (y1: Read gives 3 bytes; Write blocks until y1 is
-// closed, as a real stream with a full buffer does). The direction Y->X fails
+// reading for the next 3 s (y1: Read gives 3 bytes; Write blocks until y1 is
+// closed or user Y reads again, as a real stream with a full buffer does). The direction Y->X fails
 // on its first write and Pipe closes both streams, so the 4 bytes of the user
 // that finished are dropped although Y never went away.
 func c40Witness() (reproduced bool, detail string) {
@@ -498,7 +504,7 @@ func c40Witness() (reproduced bool, detail string) {
 		select {
 		case <-y1Closed:
 			return 0, io.ErrClosedPipe
-		case <-time.After(c40Watchdog): // user Y starts reading again (never needed on the unchanged tree)
+		case <-time.After(c40WitnessStall): // user Y starts reading again
 			delivered.Add(int64(len(p)))
 			return len(p), nil
 		}
